@@ -657,7 +657,94 @@ def check_engine_state_is_per_engine(repo, rep):
     return n
 
 
+def _shared_after_clone(ci):
+    """Mutable attributes of `ci` that a clone() made with copy.copy(self)
+    still shares with the original."""
+    cl = ci.methods.get('clone')
+    if cl is None:
+        return None
+    selfn = cl.params()[0]
+    shallow = None
+    for st in model.walk_shallow(cl.node):
+        if isinstance(st, ast.Assign) and isinstance(
+                st.value, ast.Call) and model.norm(st.value.func) in (
+                'copy.copy', 'copy') and st.value.args and model.norm(
+                st.value.args[0]) == selfn and isinstance(
+                st.targets[0], ast.Name):
+            shallow = st.targets[0].id
+        elif isinstance(st, ast.Return) and isinstance(
+                st.value, ast.Call) and model.norm(st.value.func) in (
+                'copy.copy', 'copy') and st.value.args and model.norm(
+                st.value.args[0]) == selfn:
+            shallow = ''
+    if shallow is None:
+        return []     # built by a constructor / deepcopy: own state
+    mutable = set()
+    init = ci.methods.get('__init__')
+    for m in ci.methods.values():
+        ps = m.params()
+        sn = ps[0] if ps else None
+        if m is init:
+            for st in model.walk_shallow(m.node):
+                if isinstance(st, ast.Assign) and _mutable_value(st.value):
+                    for t in st.targets:
+                        if isinstance(t, ast.Attribute) and isinstance(
+                                t.value, ast.Name) and t.value.id == sn:
+                            mutable.add(t.attr)
+        for w in effects.writes_in(m.node):
+            if w.root == sn and w.chain and w.kind in (
+                    'mutcall', 'subscript', 'del-subscript', 'aug') and \
+                    w.chain[0].startswith('.'):
+                if len(w.chain) > 1 or w.kind == 'mutcall':
+                    mutable.add(w.chain[0][1:])
+    rebound = set()
+    if shallow:
+        for st in model.walk_shallow(cl.node):
+            if isinstance(st, ast.Assign):
+                for t in st.targets:
+                    if isinstance(t, ast.Attribute) and isinstance(
+                            t.value, ast.Name) and t.value.id == shallow:
+                        rebound.add(t.attr)
+    return sorted(mutable - rebound)
+
+
+def check_clone_is_independent(repo, rep):
+    """R01g: R01a accepts `lexer.clone()` as a per-call object.  For ply's
+    own Lexer that is a documented fact; for a class of this repository
+    that stands in for the lexer it has to be shown: a clone made with
+    copy.copy(self) shares every mutable attribute it does not re-bind, and
+    two parses then read and write one buffer."""
+    n = 0
+    for modname in ENGINE_MODULES:
+        mod = repo.module(modname)
+        for ci in mod.classes.values():
+            left = _shared_after_clone(ci)
+            if left is None:
+                continue
+            n += 1
+            rep.ob('R01g', ci.key + '.clone', not left,
+                   '%s.clone() copies the object shallowly and does not '
+                   're-bind %s: every per-parse clone shares that '
+                   'container with the engine\'s base object, so '
+                   'concurrent parses read each other\'s tokens' % (
+                       ci.node.name, left), loc=mod.loc(
+                       ci.methods['clone'].node))
+    from sa.rules import c09
+    fm = c09.load_fixture(repo, 'c01_fixture.py')
+    got = {ci.node.name: _shared_after_clone(ci)
+           for ci in fm.classes.values()}
+    rep.ob('R01g', 'fixtures/c01_fixture.py/positive-control',
+           got == {'BadSharedBuffer': ['_ahead'], 'OkRebinds': [],
+                   'OkConstructs': []},
+           'positive control: expected BadSharedBuffer to share _ahead and '
+           'the two Ok* classes nothing; got %s' % got)
+    rep.count(repo_classes_with_clone=n)
+
+
 def run(repo, rep):
+    rep.rule('R01g', 'CLONE-IS-INDEPENDENT: clone() of a repository class '
+             'on the parse path shares no mutable attribute with the '
+             'original')
     rep.rule('R01f', 'ENGINE-STATE-IS-PER-ENGINE: methods of the lexer, '
              'parser, factory and engine classes store into the instance, '
              'never into a container bound in the class body or at module '
@@ -693,3 +780,4 @@ def run(repo, rep):
     check_parser_state_reads(repo, rep)
     check_eval_globals(repo, rep)
     check_engine_state_is_per_engine(repo, rep)
+    check_clone_is_independent(repo, rep)
